@@ -165,11 +165,23 @@ def _evaluate_require(ast, file_path, package_lua, lua_path=None):
             # first require() the Lua interpreter encounters.)
 
             if not use_game_loop:
-                reqd_lua.root.stats[:] = [
+                game_loop_stats = [
                     s for s in reqd_lua.root.stats
-                    if not isinstance(s, parser.StatFunction) or
-                    s.funcname.namepath[0].value not in GAME_LOOP_FUNCTION_NAMES]  # noqa: E501
-                reqd_lua.reparse(writer_cls=lua.LuaASTEchoWriter)
+                    if isinstance(s, parser.StatFunction) and
+                    s.funcname.namepath[0].value in GAME_LOOP_FUNCTION_NAMES]
+                if game_loop_stats:
+                    # Drop the tokens of those statements and parse the rest.
+                    # (Removing the nodes and re-writing the tree left the
+                    # writer's token cursor out of step with the tree.)
+                    kept_tokens = []
+                    pos = 0
+                    for s in game_loop_stats:
+                        kept_tokens.extend(reqd_lua.tokens[pos:s.start_pos])
+                        pos = s.end_pos
+                    kept_tokens.extend(reqd_lua.tokens[pos:])
+                    reqd_lua = lua.Lua.from_lines(
+                        [b''.join(t.code for t in kept_tokens)],
+                        version=game.DEFAULT_VERSION)
 
             package_lua[require_path] = reqd_lua
             _evaluate_require(reqd_lua, reqd_filepath,
